@@ -118,6 +118,8 @@ def req_dotdict(r):
         d.read_frag = {"elements": r["n"], "offset": r["off"]}
         if r.get("elide_n"):      # in-process callers may leave the count out: "the rest of the tag"
             del d.read_frag["elements"]
+        if r.get("max_size") is not None:   # in-process callers may state the reply budget of THIS request
+            d.read_frag["max_size"] = r["max_size"]
     elif op == "wt":
         d.write_tag = {"type": r["ty"], "elements": r["n"], "data": [pyval(v) for v in r["vals"]]}
     elif op == "wf":
@@ -146,8 +148,9 @@ class Device:
         logix.setup_reset()
         self.saved_max = logix.Logix.MAX_BYTES
         logix.Logix.MAX_BYTES = case["budget"]
-        if case.get("budget_on") == "instance":
+        if case.get("budget_on") in ("instance", "request"):
             logix.Logix.MAX_BYTES = self.saved_max      # the class keeps its default: the serving object alone is scaled down
+                                                        # / every request states its own budget (read_frag.max_size)
         if case.get("via_main"):
             tags = self.tags_via_main(case)
         else:
